@@ -176,6 +176,17 @@ func init() {
 				}
 				triples = append(triples, t)
 			}
+			// a hair off the neutral axis, and very dark colours (anything snapped or guarded near grey / black)
+			for i := 0; i < 600; i++ {
+				g := rng.Float32()
+				d := []float32{1e-7, 1e-6, 1e-5, 3e-5, 6e-5, 1e-4, 3e-4}[i%7]
+				t := [3]float32{g, g, g}
+				t[rng.Intn(3)] += d * float32(1-2*rng.Intn(2))
+				if i%5 == 0 {
+					t = [3]float32{rng.Float32() * 1e-4, rng.Float32() * 1e-4, rng.Float32() * 1e-4}
+				}
+				triples = append(triples, t)
+			}
 			worstRT := 0.0
 			for idx, t := range triples {
 				x := s.toXYZ(t[0], t[1], t[2])
